@@ -2,6 +2,7 @@ import ZV.Model.C22
 import ZV.Proofs.C22
 import ZV.Generated.C22
 import ZV.Proofs.C22Der
+import ZV.Proofs.C22Any
 /-!
   C22 — distinguished names round-trip through RDN sequences.
 
@@ -309,5 +310,132 @@ example :
 example : seqOK (emit { organization := [[0xff, 0xfe]] }) = false ∧
     seqOK (emit { extraNames := [⟨oidCountry, .other 2 [1]⟩] }) = false ∧
     seqOK (emit { extraNames := [⟨[1, 40], .str []⟩] }) = false := by decide
+
+/-! ### the parse direction: a Name filled from a sequence PARSED from arbitrary DER (the ANY arm of `parseField`) -/
+
+/-- T1: the type switch of the ANY arm of `parseField` (encoding/asn1/asn1.go) — its guard `!t.isCompound && t.class ==
+    ClassUniversal`, every `case TagX:` with the content parser it calls, the order, the empty `default:` — is the model's
+    `anyTable` / `anyOf`. -/
+theorem any_arm_matches_source :
+    Gen.anyArm = anyTable.map (fun r => (r.1, r.2.goName)) ∧
+    Gen.anyGuard = ["!t.isCompound", "t.class == ClassUniversal"] ∧ Gen.classUniversal = 0 ∧ Gen.anyDefault = [] := by
+  decide
+
+/-- **which elements become Go strings** (and hence reach a Name field).  If the ANY arm stores a Go string for an element,
+    the element is primitive, of the universal class, its tag is one of PrintableString 19, NumericString 18, IA5String 22,
+    T61String 20, UTF8String 12, BMPString 30, and the string is the content octets unchanged — except for BMPString, where
+    it is the UTF-8 transcription of the UTF-16 content with one trailing NUL code unit stripped. -/
+theorem any_string (cls tag : Nat) (comp : Bool) (inner s : Bytes) (h : anyOf cls tag comp inner = .ok (.str s)) :
+    cls = 0 ∧ comp = false ∧ tag ∈ [19, 18, 22, 20, 12, 30] ∧ (tag ≠ 30 → s = inner) ∧
+    (tag = 30 → s = C18.utf16ToUtf8 (C18.stripTerm (C18.pairs16 inner))) := by
+  unfold anyOf at h
+  split at h
+  · rename_i hc
+    simp only [Bool.and_eq_true, Bool.not_eq_true', beq_iff_eq] at hc
+    cases hl : lookupAny tag anyTable with
+    | none => rw [hl] at h; simp [nilVal] at h
+    | some p =>
+      rw [hl] at h
+      simp only at h
+      have hm := lookupAny_mem tag p anyTable hl
+      have hs : p.isString = true := by
+        cases hq : p.isString with
+        | true => rfl
+        | false => exact absurd h (runAny_nonstring p hq inner s)
+      obtain ⟨c1, c2⟩ := runAny_content p inner s h
+      simp only [anyTable, List.mem_cons, Prod.mk.injEq, List.mem_nil_iff, or_false] at hm
+      refine ⟨hc.2, hc.1, ?_, ?_, ?_⟩
+      · rcases hm with ⟨rfl, _⟩ | ⟨rfl, _⟩ | ⟨rfl, _⟩ | ⟨rfl, _⟩ | ⟨rfl, _⟩ | ⟨_, rfl⟩ | ⟨_, rfl⟩ | ⟨_, rfl⟩ | ⟨_, rfl⟩ |
+          ⟨_, rfl⟩ | ⟨_, rfl⟩ | ⟨rfl, _⟩ <;> first | decide | (simp [AnyP.isString] at hs)
+      · intro ht
+        apply c1
+        rcases hm with ⟨_, rfl⟩ | ⟨_, rfl⟩ | ⟨_, rfl⟩ | ⟨_, rfl⟩ | ⟨_, rfl⟩ | ⟨_, rfl⟩ | ⟨_, rfl⟩ | ⟨_, rfl⟩ | ⟨_, rfl⟩ |
+          ⟨_, rfl⟩ | ⟨_, rfl⟩ | ⟨h30, rfl⟩ <;> first | exact absurd h30 ht | (intro hb; cases hb)
+      · intro ht
+        apply c2
+        subst ht
+        rcases hm with ⟨h1, _⟩ | ⟨h1, _⟩ | ⟨h1, _⟩ | ⟨h1, _⟩ | ⟨h1, _⟩ | ⟨h1, _⟩ | ⟨h1, _⟩ | ⟨h1, _⟩ | ⟨h1, _⟩ |
+          ⟨h1, _⟩ | ⟨h1, _⟩ | ⟨_, rfl⟩ <;> first | rfl | (exact absurd h1 (by decide))
+  · simp [nilVal] at h
+
+/-- conversely an element with one of those six tags (universal, primitive) is never stored as anything but a string: the arm
+    fails (content outside the character set, odd BMP length, invalid UTF-8) or yields a Go string. -/
+theorem any_string_tags (tag : Nat) (ht : tag ∈ [19, 18, 22, 20, 12, 30]) (inner : Bytes) (t : Nat) (raw : Bytes) :
+    anyOf 0 tag false inner ≠ .ok (.other t raw) := by
+  simp only [List.mem_cons, List.mem_nil_iff, or_false] at ht
+  rcases ht with rfl | rfl | rfl | rfl | rfl | rfl
+  · exact runAny_string .printable rfl inner t raw
+  · exact runAny_string .numeric rfl inner t raw
+  · exact runAny_string .ia5 rfl inner t raw
+  · exact runAny_string .t61 rfl inner t raw
+  · exact runAny_string .utf8 rfl inner t raw
+  · exact runAny_string .bmp rfl inner t raw
+
+/-- an element that is constructed, not of the universal class, or of any other tag than the twelve of the table leaves
+    the interface nil (`o5.`): it is kept in `Names` / `OriginalRDNS` and reaches no field. -/
+theorem any_other (cls tag : Nat) (comp : Bool) (inner : Bytes)
+    (h : comp = true ∨ cls ≠ 0 ∨ tag ∉ anyTable.map (·.1)) : anyOf cls tag comp inner = .ok nilVal := by
+  unfold anyOf
+  split
+  · rename_i hc
+    simp only [Bool.and_eq_true, Bool.not_eq_true', beq_iff_eq] at hc
+    rcases h with h | h | h
+    · rw [hc.1] at h; cases h
+    · exact absurd hc.2 h
+    · cases hl : lookupAny tag anyTable with
+      | none => rfl
+      | some p =>
+        exfalso; apply h
+        exact List.mem_map.mpr ⟨(tag, p), lookupAny_mem tag p anyTable hl, rfl⟩
+  · rfl
+
+example : anyOf 0 27 false [0x41] = .ok nilVal ∧ anyOf 2 19 false [0x41] = .ok nilVal ∧ anyOf 0 19 true [0x41] = .ok nilVal ∧
+    anyOf 0 22 false [0x61, 0x40, 0x62] = .ok (.str [0x61, 0x40, 0x62]) ∧ anyOf 0 22 false [0xe9] = .err ∧
+    anyOf 0 30 false [0x00, 0x41, 0x00, 0x00] = .ok (.str [0x41]) ∧ anyOf 0 2 false [0x01, 0x00] = .ok (.other 2 [0, 0, 0, 0, 0, 0, 1, 0]) := by
+  decide
+
+/-- **the ANY arm reads back what Marshal writes**: for whichever kind `makeField` picks for a string value
+    (`stringChoice`, see `name_string_choice`), the ANY arm stores exactly that Go string. -/
+theorem any_reads_marshal_choice (s : Bytes) (t : Nat) (h : stringChoice s = some t) :
+    anyOf 0 t false s = .ok (.str s) := anyOf_choice s t h
+
+example : stringChoice [0x55, 0x53] = some 19 ∧ stringChoice [0xc3, 0xa9] = some 12 := by decide
+
+/-- **FillFromRDNSequence of ANY sequence** (no hypothesis: unknown types, non-string values, empty RDNs, mixed RDNs,
+    repeated types): every slice field is the list of the string values whose type dispatches to it, in document order;
+    each scalar is the last string value of its type (empty if none); a non-string value reaches no field; `Names` is the
+    flattened sequence; `ToRDNSequence` gives the sequence back. -/
+theorem fill_any_sequence (seq : RDNSeq) :
+    (∀ f, (fill (some seq)).get f = seq.flatten.flatMap (valsFor f)) ∧
+    (∀ s, (fill (some seq)).getS s = seq.flatten.foldl (stepS s) []) ∧
+    (∀ f t tag raw, valsFor f ⟨t, .other tag raw⟩ = []) ∧
+    (fill (some seq)).names = seq.flatten ∧ (fill (some seq)).extraNames = [] ∧
+    toRDN (fill (some seq)) = some seq := by
+  refine ⟨fun f => ?_, fun s => ?_, fun _ _ _ _ => rfl, ?_, ?_, to_of_fill_original (some seq)⟩
+  · unfold fill; rw [fillInto_eq, fillFlat_get]
+    cases f <;> simp [Name.empty, Name.get, flat]
+  · unfold fill; rw [fillInto_eq, fillFlat_getS]
+    have : ({ Name.empty with originalRDNS := some seq } : Name).getS s = [] := by cases s <;> rfl
+    rw [this]; rfl
+  · unfold fill; rw [fillInto_eq, (fillFlat_rest _ _).1]; simp [Name.empty, flat]
+  · unfold fill; rw [fillInto_eq, (fillFlat_rest _ _).2.1]; rfl
+
+/-- **C22, second sentence, on parsed input.**  For EVERY byte string `der` that strict `asn1.Unmarshal` accepts as a
+    `pkix.RDNSequence` (`unmarshalAny`: any string type, non-string values, unknown tags, trailing bytes `rest`), the Name
+    filled from the parsed sequence converts back to exactly that sequence, `Names` lists every parsed attribute in
+    document order, and every slice field is the list of the parsed string values of its attribute type in document order. -/
+theorem parsed_name_roundtrip (der rest : Bytes) (seq : RDNSeq) (_h : unmarshalAny der = .ok (seq, rest)) :
+    toRDN (fill (some seq)) = some seq ∧ (fill (some seq)).names = seq.flatten ∧
+    (∀ f, (fill (some seq)).get f = seq.flatten.flatMap (valsFor f)) ∧
+    (∀ s, (fill (some seq)).getS s = seq.flatten.foldl (stepS s) []) := by
+  obtain ⟨h1, h2, _, h4, _, h6⟩ := fill_any_sequence seq
+  exact ⟨h6, h4, h1, h2⟩
+
+/-- the hypothesis is satisfiable by a name `asn1.Marshal` would not write: `emailAddress = IA5String "a@b"`; the value lands in
+    `EmailAddress` -/
+example :
+    unmarshalAny [0x30, 0x14, 0x31, 0x12, 0x30, 0x10, 0x06, 0x09, 0x2a, 0x86, 0x48, 0x86, 0xf7, 0x0d, 0x01, 0x09, 0x01,
+                  0x16, 0x03, 0x61, 0x40, 0x62] = .ok ([[mkATV oidDNEmailAddress [0x61, 0x40, 0x62]]], []) ∧
+    (fill (some [[mkATV oidDNEmailAddress [0x61, 0x40, 0x62]]])).emailAddress = [[0x61, 0x40, 0x62]] := by decide
 
 end ZV.C22
